@@ -131,10 +131,11 @@ def mkCore (prog : List Nat) (af bc de hl : Nat) : Option State := Id.run do
     addr := addr + 1
   return some { regs := { af := af, bc := bc, de := de, hl := hl, sp := 0xdff0, ip := 0xc000 }, bus := b, ime := .Disabled, run := .Run }
 
-/-- `frame_program(n0, n1)`: n0 NOPs ; JP loop ; loop: n1 NOPs ; JP loop -/
-def frameProgram (n0 n1 : Nat) : List Nat :=
-  let lp := 0xc000 + n0 + 3
-  List.replicate n0 0 ++ [0xc3, lp % 256, lp / 256] ++ List.replicate n1 0 ++ [0xc3, lp % 256, lp / 256]
+/-- `frame_program(n0, n1, lcd_off)`: [XOR A ; LDH (0x40),A] n0 NOPs ; JP loop ; loop: n1 NOPs ; JP loop -/
+def frameProgram (n0 n1 : Nat) (off : Bool) : List Nat :=
+  let pre : List Nat := if off then [0xaf, 0xe0, 0x40] else []
+  let lp := 0xc000 + pre.length + n0 + 3
+  pre ++ List.replicate n0 0 ++ [0xc3, lp % 256, lp / 256] ++ List.replicate n1 0 ++ [0xc3, lp % 256, lp / 256]
 
 /-- `Core::run_frame` (jit build: block stepping) on the whole-machine model: step until the frame counter differs from
 its value at the call -/
@@ -162,7 +163,7 @@ def checkFrame (l : Line) : Verdict :=
     match bad "second" (l.outN "e2") (l.outN "f2") with
     | some v => v
     | none =>
-      match mkCore (frameProgram (l.inN "n0") (l.inN "n1")) 0x01b0 0x0013 0x00d8 0x014d with
+      match mkCore (frameProgram (l.inN "n0") (l.inN "n1") (l.inN "off" == 1)) 0x01b0 0x0013 0x00d8 0x014d with
       | none => .bad "setup"
       | some c0 =>
         match runFrameModel (Sys.frames c0) c0 40000 with
